@@ -287,7 +287,9 @@ def selftest(pid, base_keys):
                 kinds[d] = m.get("kind", "breaking")
     if not ids:
         return out
-    scratch = os.path.join(tempfile.gettempdir(), "verif-selftest-%d" % os.getuid())
+    # one private scratch directory per run: thorough commands of different properties may run side by side
+    scratch_root = tempfile.mkdtemp(prefix="verif-selftest-%s-" % pid)
+    scratch = os.path.join(scratch_root, "w")
     try:
         for sid in ids:
             shutil.rmtree(scratch, ignore_errors=True)
@@ -326,7 +328,7 @@ def selftest(pid, base_keys):
                 out["missed"] += 1
                 out["variants"].append({"id": sid, "result": "MISSED"})
     finally:
-        shutil.rmtree(scratch, ignore_errors=True)
+        shutil.rmtree(scratch_root, ignore_errors=True)
     return out
 
 
